@@ -193,6 +193,9 @@ def main():
             tr = run_unit(ctx, unit, twin=True)
             if tr is not None:
                 tu, tmeta, tres, tatt = tr
+                if tatt.fatal:
+                    ctx.undecided.append('vacuity guard: the twin of %s could not be processed: %s' % (unit, tatt.fatal[0][:300]))
+                    continue
                 for f in tmeta['functions']:
                     oid = '%s/%s/vacuity-false' % (unit, f['id'])
                     any_fail = any(k.startswith('%s/%s/' % (unit, f['id'])) for k in tatt.failed)
